@@ -34,3 +34,19 @@ Definition aess_cfb (E : list N -> list N) (iv : list N) (ps cs : list (list N))
   length cs = length ps /\
   forall i, i < length ps ->
     nth i cs [] = aes_xor_bytes (nth i ps []) (E (nth i (iv :: cs) [])).
+
+(* FIPS-197 5.1.1: the S-box is the affine transformation (5.1) of the multiplicative
+   inverse in GF(2^8) (0 mapped to 0); b'_i = b_i + b_(i+4) + b_(i+5) + b_(i+6) + b_(i+7) + c_i,
+   c = 0x63, indices mod 8 *)
+Fixpoint aess_gpow (n : nat) (x : N) : N :=
+  match n with
+  | O => 1%N
+  | S n' => aes_gmul x (aess_gpow n' x)
+  end.
+Definition aess_ginv (x : N) : N := aess_gpow 254 x.
+Definition aess_affine_bit (b i : N) : bool :=
+  xorb (xorb (xorb (xorb (xorb (N.testbit b i) (N.testbit b ((i + 4) mod 8)%N))
+                         (N.testbit b ((i + 5) mod 8)%N))
+                   (N.testbit b ((i + 6) mod 8)%N))
+             (N.testbit b ((i + 7) mod 8)%N))
+       (N.testbit 99%N i).
